@@ -307,7 +307,9 @@ def schedTask (nid : String) : M Nat := do
   let w ← get
   let n ← getNode nid
   let tid := w.p.tasks.length
-  let t : Task := { tid := tid, nid := nid, prev := some w.cur }
+  -- `Process::create_task`: a branch never reports to the client, not even when it is closed before its own init
+  let t : Task := { tid := tid, nid := nid, prev := some w.cur,
+                    data := if n.kind == .branch then Vars.set [] Consts.TASK_EMIT_DISABLED (.bool true) else [] }
   emit (.new w.p.pid tid nid (kindStr n.kind) (some w.cur))
   modify fun w => { w with p := { w.p with tasks := w.p.tasks ++ [t] }, queue := w.queue ++ [(w.p.pid, tid)] }
   pure tid
